@@ -60,6 +60,7 @@ struct SchemaGen {
 	bool single_title = true;    // sections with CFGF_TITLE but without CFGF_MULTI
 	bool printable_only = false; // only kinds cfg_print can write back (C05)
 	bool string_defaults_hostile = false;
+	bool decl_comments = false;  // some declarations carry an annotation (cfg_opt_t.comment)
 };
 
 json gen_schema(Rng &r, const SchemaGen &g); // {"opts":[...]}
